@@ -24,14 +24,18 @@ pub struct GenSpec {
     pub p_len_max: f64,
     /// same for the field stream (= "absent value" pattern)
     pub p_field_max: f64,
+    /// forced draws on the field stream: (draw index, value). Lets a history contain two
+    /// messages of one type that differ in exactly one field (all-zero vs all-one pattern)
+    #[serde(default, skip_serializing_if = "Vec::is_empty")]
+    pub force: Vec<(u32, u64)>,
 }
 
 pub fn val_gen_for(spec: &GenSpec) -> ValGen<GenRng, GenRng, GenRng> {
     let base = Rng::from_seed(spec.gen_seed);
     ValGen::new(
-        GenRng { rng: base.fork("field"), p_max: spec.p_field_max },
-        GenRng { rng: base.fork("len"), p_max: spec.p_len_max },
-        GenRng { rng: base.fork("rng"), p_max: 0.0 },
+        GenRng { rng: base.fork("field"), p_max: spec.p_field_max, force: spec.force.clone(), draws: 0 },
+        GenRng { rng: base.fork("len"), p_max: spec.p_len_max, force: Vec::new(), draws: 0 },
+        GenRng { rng: base.fork("rng"), p_max: 0.0, force: Vec::new(), draws: 0 },
     )
 }
 
